@@ -23,6 +23,8 @@ func (c *Ctx) Extra() map[string]interface{} {
 // Debug dumps an engine run.
 func Debug(c *Ctx, what string) {
 	switch what {
+	case "lent":
+		DebugLent(c)
 	case "stats":
 		SummaryStats(c)
 	case "afmt":
@@ -112,3 +114,56 @@ func SummaryStats(c *Ctx) {
 		fmt.Println(e.v, e.k)
 	}
 }
+
+// DebugLent lists summaries whose entry has the #lent ghost but one outcome lacks it.
+func DebugLent(c *Ctx) {
+	a := c.AFmt()
+	n := 0
+	for _, k := range sortedSummaryKeys(a.It) {
+		s := a.It.Summaries[k]
+		for id, o := range s.Entry {
+			for path := range o.Fields {
+				if len(path) > 5 && path[len(path)-5:] == "#lent" {
+					for _, out := range s.SortedOutcomes() {
+						if oo := out.Heap[id]; oo != nil {
+							if _, ok := oo.Fields[path]; !ok {
+								n++
+								if n < 12 {
+									fmt.Printf("%s: entry has %s/%s, outcome lacks it (exc=%v)\n", shortFn(s.Fn.String()), id, path, out.Exc)
+								}
+							}
+						}
+					}
+				}
+			}
+		}
+	}
+	fmt.Println("total", n)
+	cnt := map[string]int{}
+	for _, k := range sortedSummaryKeys(a.It) {
+		s := a.It.Summaries[k]
+		check := func(h map[string]*engineObject, where string) {}
+		_ = check
+		for _, out := range s.SortedOutcomes() {
+			for _, oo := range out.Heap {
+				if namedOf(oo.Type) == tPP {
+					if _, ok := oo.Fields["buf.Buffer.#lent"]; !ok {
+						cnt[shortFn(s.Fn.String())+" (outcome)"]++
+					}
+				}
+			}
+		}
+		for _, oo := range s.Entry {
+			if namedOf(oo.Type) == tPP {
+				if _, ok := oo.Fields["buf.Buffer.#lent"]; !ok {
+					cnt[shortFn(s.Fn.String())+" (entry)"]++
+				}
+			}
+		}
+	}
+	for k, v := range cnt {
+		fmt.Println(v, k)
+	}
+}
+
+type engineObject = struct{}
